@@ -41,7 +41,7 @@ CONFIGS = {
                      walks=3000, depth=40),
 }
 # thorough: the client's own configuration (neutrino.go:801-806: MaxBatch 10, QueueBufferSize 10), long runs
-LONG = dict(cfgs=[(10, 10)], MaxAdd=24, MaxTicks=3, MaxToggles=1, walks=1500, depth=60)
+LONG = dict(cfgs=[(10, 10)], MaxAdd=13, MaxTicks=2, MaxToggles=1, walks=1500, depth=60)
 
 ASSUMPTIONS = [
     "AddItem callers are serialised (the queue's input channel is unbuffered, one call is in its send at a time); "
@@ -95,7 +95,10 @@ def run_slice(prop_id, tier, seed):
         runs.append(("exh", tlc, fine, g, paths, cfg))
         if tier == "thorough":
             tl2, f2, g2 = _explore(LONG, os.path.join(sc, "tlc-long"))
-            runs.append(("client-config", tl2, f2, g2, core.random_walks(g2, LONG["walks"], LONG["depth"], rng), LONG))
+            p2, _ = core.edge_cover(g2, rng, max_len=200)
+            p2 += settled.stall_walks(g2, LONG["walks"], LONG["depth"], rng, party="t", seg=(1, 14),
+                                      late=lambda a: a.get("s") == "Stop")
+            runs.append(("client-config", tl2, f2, g2, p2, LONG))
         rc, graphs, tot = 0, {}, dict(states=0, transitions=0, traces=0, viol=0, drift=0, tlc=0.0)
         samples, known_seen, parked = [], {}, 0
         for name, tl, fn, gg, pp, c in runs:
@@ -120,6 +123,8 @@ def run_slice(prop_id, tier, seed):
             pk = sum(1 for t in observed if t["steps"] and t["steps"][-1]["obs"]["pend"] != 0
                      and t["steps"][-1]["obs"]["stop"] == 2)
             parked += pk
+            lost = sum(1 for t in observed if t["steps"] and t["steps"][-1]["obs"]["nq"] != 0
+                       and t["steps"][-1]["obs"]["stop"] == 2)
             graphs[name] = dict(
                 config={k: c[k] for k in ("cfgs", "MaxAdd", "MaxTicks", "MaxToggles")},
                 fine_states=tl.distinct, fine_transitions=fn.n_edges(),
@@ -129,6 +134,7 @@ def run_slice(prop_id, tier, seed):
                 paths=info["paths"], replayed_steps=info["steps"], paths_cut_short=info["cut"],
                 paths_leaving_a_goroutine_blocked_for_good=info["leaked"],
                 runs_ending_with_additem_parked_for_good=pk,
+                runs_ending_with_accepted_items_left_in_the_queue_after_stop=lost,
                 settled_steps_observed_on_the_code=info["edges_seen"],
                 outcomes_other_than_predicted_but_allowed=info["alt"],
                 steps_with_several_model_states_matching=info["ambiguous"],
@@ -158,6 +164,24 @@ def run_slice(prop_id, tier, seed):
             "samples": samples[:4], "assumptions": ASSUMPTIONS,
         }
         return rc, cov
+    finally:
+        shutil.rmtree(sc, ignore_errors=True)
+
+
+def is_my_replay(replay_file):
+    try:
+        return json.load(open(replay_file)).get("slice") == "batchwriter"
+    except Exception:
+        return False
+
+
+def run_replay(prop_id, replay_file):
+    """Re-executes a saved violation of this slice on the working tree (bin/vcheck <id> --replay <file>)."""
+    sc = core.scratch("bw")
+    try:
+        binary = family.build_overlay_test(PKG, [DRIVER], os.path.join(sc, "chanutils.test"))
+        return settled.replay_saved([SPEC], "BatchWriterProps", PROPS[prop_id], prop_id, binary,
+                                    "TestVerifBatchWriterReplay", replay_file, label)
     finally:
         shutil.rmtree(sc, ignore_errors=True)
 
